@@ -360,7 +360,11 @@ class MarkdownNormalizer(Renderer):
         self._prefix += prefix
         self._second_prefix += second_prefix
         yield
-        self._prefix, self._second_prefix = old_prefix, old_second_prefix
+        # Whatever was rendered inside has written the first-line prefix (list marker, quote
+        # marker, ...) of the enclosing containers too: it must not be written a second time.
+        consumed = self._prefix == self._second_prefix
+        self._prefix = old_second_prefix if consumed else old_prefix
+        self._second_prefix = old_second_prefix
 
     def _can_be_tight(self, element: block.List) -> bool:
         """
